@@ -583,6 +583,21 @@ func genC13(g *Rng, tier string, emit func(Op)) {
 				}
 			}
 		}
+		// tables of other sizes (the documented range depends on the table alone): the largest
+		// differences each supports, where the roots use all the bits the table declares
+		for _, tl := range []int{30, 100, 127, 128, 2000, 5000} {
+			top := int64(tl-2) / 4
+			mm := g.bits(60)
+			for _, d := range []int64{0, 1, top / 2, top - 3, top - 2, top - 1, top} {
+				if d < 0 {
+					continue
+				}
+				emit(mk(1, 1, new(big.Int).Sub(mm, bi(d)), mm, tl+1, "table-size-sweep").with("fkey", "C13/table-size"))
+				if d > 0 {
+					emit(mk(-1, 1, new(big.Int).Add(mm, bi(d+1)), mm, tl+1, "table-size-sweep").with("fkey", "C13/table-size"))
+				}
+			}
+		}
 		// statements on several hidden attributes in one proof
 		for _, idxs := range [][]int{{1, 2}, {2, 1}, {1, 2, 4}, {4, 2, 2, 1}, {3, 1, 3}, {1, 2, 3, 4}} {
 			if 5 > len(kp.pk.R) {
